@@ -22,6 +22,8 @@ pub(crate) struct Assignment {
     idents: Box<[Ident]>,
     value: Value,
     flags: AssignmentFlag,
+    /// `[a, b] = value`; an unpacking assignment can also have a single name (`[a] = value`)
+    unpack: bool,
 }
 
 impl WalkForType for Assignment {
@@ -71,6 +73,7 @@ impl Assignment {
             idents: Box::new([ident]),
             value,
             flags: AssignmentFlag(0),
+            unpack: false,
         }
     }
 
@@ -79,6 +82,7 @@ impl Assignment {
             idents,
             value,
             flags: AssignmentFlag(0),
+            unpack: true,
         }
     }
 
@@ -97,7 +101,7 @@ impl Assignment {
         user_data: &AssocFileData,
         is_modify: bool,
     ) -> Result<bool> {
-        if self.idents.len() != 1 {
+        if self.unpack {
             bail!("cannot modify a pre-existing variable when unpacking");
         };
 
@@ -155,7 +159,7 @@ impl Dependencies for Assignment {
     fn dependencies(&self) -> Vec<Dependency> {
         let mut base = self.value().net_dependencies();
 
-        if self.idents.len() == 1 && self.idents[0].is_instance_callback_variable().unwrap() {
+        if !self.unpack && self.idents[0].is_instance_callback_variable().unwrap() {
             base.push(Dependency::new(Cow::Borrowed(&self.idents[0])));
         }
 
@@ -186,7 +190,7 @@ impl Compile for Assignment {
     fn compile(&self, state: &CompilationState) -> Result<Vec<super::CompiledItem>> {
         let mut value_init = self.value().compile(state)?;
 
-        if self.idents.len() == 1 {
+        if !self.unpack {
             let name = self.idents[0].name();
             let store_instruction = if self.flags().contains(AssignmentFlag::modify()) {
                 instruction!(store_object name)
@@ -425,7 +429,7 @@ impl Parser {
             )]);
         }
 
-        if x.idents.len() == 1 {
+        if !x.unpack {
             let ident_ty = x.idents[0].ty().unwrap();
             if let Some(list_type) = ident_ty.is_list() {
                 if list_type.must_be_const() && !is_const {
@@ -448,7 +452,7 @@ impl Parser {
             x.set_flags(flags)
         }
 
-        if x.idents.len() == 1 {
+        if !x.unpack {
             if let Some(previous_ident) = did_exist_before.as_ref() {
                 let ident = &x.idents[0];
 
